@@ -331,7 +331,8 @@ def explore_shard(acc, shard):
             if case:
                 acc.sample(layer, {"fs": fsname, "boundary": bound, "payloads": [n for n, _ in boundary_payloads()]})
         elif kind == "M":
-            _, sig_idx, fsname, maxlen, full = shard
+            _, sig_idx, fsname, maxlen, full = shard[:5]
+            only_ext = shard[5] if len(shard) > 5 else None
             layer = "M mutate"
             w = world(fsname)
             reps = sorted(MU.representatives().items())
@@ -339,7 +340,7 @@ def explore_shard(acc, shard):
             case = None
             scripts = [()] + [(e,) for e in MU.EDITS] + ([tuple(s) for n in range(2, maxlen + 1) for s in itertools.product(MU.EDITS, repeat=n)])
             scripts += [("title_unencodable",), ("append_chart", "title_unencodable"), ("title_unencodable", "set_new")]
-            for ext in (".sm", ".ssc"):
+            for ext in ((only_ext,) if only_ext else (".sm", ".ssc")):
                 for with_chart, variant in ((False, None), (True, None), (False, "unterminated"), (True, "crlf"), (False, "empty"), (False, "commentonly"), (False, "chartsonly"), (True, "longlist")):
                     if variant == "crlf" and fsname != "mem":
                         continue  # native text mode translates CRLF on reading; MemoryFS keeps it inside values
@@ -400,8 +401,9 @@ def explore(run):
     nsig = len(MU.representatives())
     maxlen = 3 if run.thorough() else 2
     for i in range(nsig):
-        shards.append(("M", i, "mem", maxlen, run.thorough()))
-        shards.append(("M", i, "nat", maxlen if run.thorough() else 1, False))
+        for ext in (".sm", ".ssc"):
+            shards.append(("M", i, "mem", maxlen, run.thorough(), ext))
+            shards.append(("M", i, "nat", maxlen if run.thorough() else 1, False, ext))
     k = run.seed % len(shards)
     shards = shards[k:] + shards[:k]
     run.merge(core.pmap(explore_shard, shards, run.seed))
